@@ -20,8 +20,8 @@ P<i>; N = the OS thread created inside the `create` call of this life; C = the a
   E 20    <root pool> X.schedU       by C in revive  rPush                       E 20 P<i> <unit>                   push
   A store X+state           RUNNING  by C in revive  rPub                        TERMINATED by N                    nPubTerm
   A load  X+state                    by C after the context join of its join     jPub 0|1     any other             getState 0|1
-  E 5 X.schedU (main scheduler starts) nRoot 0       E 6 X.schedU (its function returned)  nFinish
-  E 7 X.schedU (cancelled by ABTI_ythread_schedule before it ever ran)   nRoot 1
+  A load  X.schedU+request           by N on the root ULT (ABTI_ythread_schedule's request check)   nRoot <CANCEL bit>
+  E 6 X.schedU (the main scheduler's function returned)  nFinish
   S xl unit X<i> k                   nRun
   M lock / R condwait / R condret + M lock / M unlock / W cond on X+ctx.state_lock / state_cond
                                      lock / wait / relock / unlock / signal  <T|C>  with the context state word logged
@@ -97,7 +97,7 @@ def project(path):
         return None
 
     def next_of_tid(i, tid):
-        for ln2, w2 in raw[i + 1: i + 40]:
+        for ln2, w2 in raw[i + 1:]:
             if len(w2) > 1 and w2[1] == str(tid) and w2[0] in ("A", "E", "S", "M", "R", "W"):
                 return w2
         return None
@@ -148,13 +148,15 @@ def project(path):
                 emit(x, "init", ln)
                 pr.stats["lives"] += 1
                 # the native thread may have popped and started the main scheduler before the stream had a name in the
-                # trace: then no E 5 / E 7 of this thread on X.schedU follows (a start after a revive is always logged)
+                # trace: then no request check of ABTI_ythread_schedule (load of X.schedU+request on the root ULT) follows
+                # before the next revive (a start after a revive is always logged)
                 seen = False
                 for ln2, w2 in raw[i + 1:]:
-                    if w2[0] == "E" and len(w2) >= 7 and w2[3] in ("5", "7") and w2[4] == x + ".schedU":
+                    if (w2[0] == "A" and len(w2) >= 8 and w2[2] == x + ".rootU" and w2[3] == "load"
+                            and w2[4] == "%s.schedU+%d" % (x, o_treq)):
                         seen = S[x]["ntid"] is not None and int(w2[1]) == S[x]["ntid"]
                         break
-                    if w2[0] == "S" and len(w2) >= 7 and w2[3] == "xl" and w2[4] in ("ret",) and w2[6] == "revive" and w2[7] == x:
+                    if w2[0] == "S" and len(w2) >= 7 and w2[3] == "xl" and w2[4] == "call" and w2[6] == "revive" and w2[7] == x:
                         break
                     if w2[0] == "U" and len(w2) >= 2 and w2[1] == x:
                         break
@@ -276,6 +278,11 @@ def project(path):
                         emit(x, "rClear", ln)
                     else:
                         emit(x, "unexpected-store-to-main-scheduler-request %d by tid %d" % (a_, tid), ln)
+                elif op == "load" and isN and unit == x + ".rootU":
+                    # ABTI_ythread_schedule -> ABTI_thread_handle_request: the root thread decides to run or cancel the ULT
+                    emit(x, "nRoot %d" % (1 if cur & CANCEL else 0), ln)
+                    if cur & CANCEL:
+                        pr.stats["main_scheduler_cancelled_before_it_started"] += 1
                 elif op == "load" and isN and cur != 0:
                     nx = next_of_tid(i, tid)
                     if nx and nx[0] == "A" and nx[3] == "for" and _loc(nx[4]) == (x + ".sched", o_sreq):
@@ -297,12 +304,10 @@ def project(path):
                         fl = inflight.get(act) if act is not None else None
                         if x in S and fl and fl[0] == x and fl[1] == "revive":
                             emit(x, "rPush", ln)
-            elif kind in (5, 6, 7) and p1.endswith(".schedU"):
+            elif kind == 6 and p1.endswith(".schedU"):
                 x = p1.split(".")[0]
                 if x in S and x != "X0" and tid == S[x]["ntid"]:
-                    emit(x, {5: "nRoot 0", 6: "nFinish", 7: "nRoot 1"}[kind], ln)
-                    if kind == 7:
-                        pr.stats["main_scheduler_cancelled_before_it_started"] += 1
+                    emit(x, "nFinish", ln)
             continue
         if t in ("M", "R", "W") and len(w) >= 4:
             tid, what, obj = int(w[1]), w[2], w[3]
